@@ -168,7 +168,7 @@ func checkC19(c *lib.Ctx) {
 		var ext c19ExtCase
 		var one c19Case
 		if err := lib.ReadReplay(c.Replay, &ext); err == nil && ext.Sect == "ext" {
-			root, err := os.MkdirTemp("", "vh-c19-")
+			root, err := lib.MkScratch("vh-c19-")
 			if err != nil {
 				r.Fail(lib.Failure{Kind: "tie", Key: "tmpdir", What: err.Error()})
 				return
@@ -283,7 +283,7 @@ func checkC19(c *lib.Ctx) {
 	c19ClientReport(c, nil)
 
 	// ---- server side (c19_srv.go) ----
-	root, err := os.MkdirTemp("", "vh-c19-")
+	root, err := lib.MkScratch("vh-c19-")
 	if err != nil {
 		r.Fail(lib.Failure{Kind: "tie", Key: "tmpdir", What: err.Error()})
 		return
